@@ -230,9 +230,9 @@ func captureBisyncRdbExpandedCommands(e *rdb.BinEntry, sourceKey []byte, targetK
 		return nil
 	})
 
-	if e.ExpireAt != 0 && len(targetKey) > 0 {
+	if e.ExpireAt != 0 && len(targetKey) > 0 && e.LastBin() {
 		// Expanded native commands do not carry TTL state, so append PEXPIRE to
-		// preserve the original expiration semantics.
+		// preserve the original expiration semantics (with the last part of a split value).
 		cmds = append(cmds, bisyncAofCommand{
 			Cmd: "pexpire",
 			Args: [][]byte{
